@@ -502,4 +502,29 @@ def c03_f(ctx: Ctx):
                                   "the workspace changes between calls (jobs are removed, re-keyed, moved), so a remembered answer describes a workspace that no longer exists")
 
 
-RULES = [c03_a, c03_b, c03_c, c03_d, c03_e, c03_f]
+@rule("C03-g")
+def c03_g(ctx: Ctx):
+    """reset() recreates the job: clear() followed by a validating init() (no early exit on a stale 'directory known' flag); paths are absolute."""
+    R = "C03-g"
+    out = []
+    f = ctx.fn("signac.job:Job.reset")
+    inits = [c for c in body_nodes(f) if isinstance(c, ast.Call) and "signac.job:Job.init" in common.targets_of(ctx, f, c)]
+    clears = [c for c in body_nodes(f) if isinstance(c, ast.Call) and "signac.job:Job.clear" in common.targets_of(ctx, f, c)]
+    if not inits or not clears:
+        out.append(ctx.viol(R, f, f.node, "reset() is not clear() followed by init()"))
+    for c in inits:
+        v = kwarg(c, "validate_statepoint") or (c.args[1] if len(c.args) > 1 else None)
+        fv = True if v is None else ctx.fold(v, f)
+        if fv is True:
+            out.append(ctx.ok(R, f, c, "reset() re-initialises with validation: a job removed through another handle is recreated"))
+        else:
+            out.append(ctx.viol(R, f, c, f"reset() calls init(validate_statepoint={canon(v)}): the fast path returns at once when the handle believes its directory exists, so a job that was "
+                                "removed through another handle is not recreated and the workspace lacks it"))
+    from .c05 import c05_a
+    out += [r for r in c05_a(ctx) if "abs-path" in r.construct]
+    for r in out:
+        r.rule = R
+    return out
+
+
+RULES = [c03_a, c03_b, c03_c, c03_d, c03_e, c03_f, c03_g]
